@@ -107,6 +107,10 @@ class Solver:
         if name == "exit":
             self.ok()
             return False
+        if name in ("declare-fun", "declare-const") and len(cmd) > 1 and str(cmd[1]) == (os.environ.get("STRICT_SOLVER_REJECT") or None):
+            # a solver that does not support this declaration: says so and its state is unchanged (SMT-LIB 2.6, 4.1.1)
+            self.reply("unsupported")
+            return True
         r = self.sc.run(cmd)
         if name in ("assert", "push", "pop", "reset-assertions", "declare-fun", "declare-const", "declare-sort", "define-fun"):
             self.last = None
